@@ -17,6 +17,15 @@ type SCase struct {
 	Cfg    genlab.Cfg
 	Extra  []genlab.File // sibling files
 	Axes   map[string]string
+	Main   string // path of the main schema file (default s.json)
+}
+
+// MainPath returns the path of the main schema file.
+func (s SCase) MainPath() string {
+	if s.Main != "" {
+		return s.Main
+	}
+	return "s.json"
 }
 
 func baseCfg() genlab.Cfg {
@@ -25,7 +34,7 @@ func baseCfg() genlab.Cfg {
 
 // Case materialises the generator case.
 func (s SCase) Case() genlab.Case {
-	files := []genlab.File{{Path: "s.json", Content: space.Text(s.Schema)}}
+	files := []genlab.File{{Path: s.MainPath(), Content: space.Text(s.Schema)}}
 	files = append(files, s.Extra...)
 	cfg := s.Cfg
 	if cfg.Package == "" {
@@ -34,7 +43,7 @@ func (s SCase) Case() genlab.Case {
 	if cfg.ResolveExt == nil {
 		cfg.ResolveExt = []string{".json"}
 	}
-	return genlab.Case{ID: s.ID, Files: files, Args: []string{"s.json"}, Cfg: cfg}
+	return genlab.Case{ID: s.ID, Files: files, Args: []string{s.MainPath()}, Cfg: cfg}
 }
 
 // OptSet is a named option set.
